@@ -156,11 +156,28 @@ def _eval_single(cases):
             # shape of A, so the image itself qualifies. Same specification as the out-less call (compared with it, which is judged above).
             Ac = np.ascontiguousarray(Al).copy()
             import mahotas as mh
-            r2 = (mh.erode if case['kind'] == 'erode' else mh.dilate)(Ac, Bc, out=Ac)
+            fn_ = mh.erode if case['kind'] == 'erode' else mh.dilate
+            form = (len(case['data']) + int(Ac.size)) % 3
+            if form == 0:
+                o_ = Ac                                   # the very object
+                r2 = fn_(Ac, Bc, out=o_)
+            elif form == 1 or Ac.ndim == 0 or Ac.size < 2:
+                o_ = Ac[...]                              # another view object of exactly the same memory
+                r2 = fn_(Ac, Bc, out=o_)
+            else:
+                # `out` overlaps the input at a different start address: both are C-contiguous views of one buffer, shifted by
+                # one element (a rolling buffer); the result must still be the erosion/dilation of the image passed in
+                n_ = int(Ac.size)
+                buf = np.zeros(n_ + 1, Ac.dtype)
+                up = bool(case['data'][0]) if len(case['data']) else False
+                src, dst = (buf[1:], buf[:-1]) if up else (buf[:-1], buf[1:])
+                src[...] = Ac.ravel()
+                Ain, o_ = src.reshape(Ac.shape), dst.reshape(Ac.shape)
+                r2 = fn_(Ain, Bc, out=o_)
             if not np.array_equal(np.asarray(r2), got):
-                f.append(dict(kind='property', key=f"{case['kind']}:out=alias-a",
+                f.append(dict(kind='property', key=f"{case['kind']}:out=" + ('alias-a', 'alias-view', 'overlap-shifted')[form if form < 2 or Ac.size >= 2 else 1],
                               detail=dict(got=[int(x) for x in np.asarray(r2).ravel().tolist()], without_out=[int(x) for x in got.ravel().tolist()])))
-            if r2 is not Ac:
+            if r2 is not o_:
                 f.append(dict(kind='model', key=f"{case['kind']}:out-not-returned", detail={}))
         if not np.array_equal(before, Al):
             f.append(dict(kind='property', key='input-modified', detail={}))
